@@ -79,7 +79,9 @@ def fragJson : Frag → Json
   | .schemaQ s => Json.mkObj [("q", Json.str s)]
   | .schemaEnum vs => Json.mkObj [("enum", Json.arr (vs.map fromJ).toArray)]
   | .schemaTypes ts => Json.mkObj [("types", jstrs ts)]
+  | .indices l => Json.mkObj [("indices", Json.arr (l.map (fun n => Json.num (JsonNumber.fromNat n))).toArray)]
   | .valueKey k => Json.mkObj [("key", Json.str k)]
+  | .valueStr s => Json.mkObj [("valueStr", Json.str s)]
   | .validatorText s => Json.mkObj [("validator", Json.str s)]
 
 def errJson (e : Err) : Json :=
